@@ -182,22 +182,22 @@ theorem ubig_is_multiple_of_exact (W : Nat) (hW : 1 ≤ W) (hW4 : 4 ≤ W) (a b 
       simp [hz, this]
 
 /-- `UBig::is_multiple_of_const` / `IBig::is_multiple_of_const` (`is_multiple_of_dword`) for a
-    non-zero double-word divisor.  (A zero divisor reaches `dword % 0` resp.
-    `debug_assert!(rhs != 0)`: it panics, but not through `panic_divide_by_0` — see the model.) -/
+    non-zero double-word divisor -/
 theorem is_multiple_of_const_exact (W : Nat) (hW : 1 ≤ W) (a : TRepr) (d : Nat) (ha : a.Canon W)
     (hd0 : d ≠ 0) (hd : d < 2 ^ (2 * W)) :
     isMultipleOfDword W a d = .ok (decide (a.value W % d = 0)) := by
   have hpos : 0 < d := Nat.pos_of_ne_zero hd0
   unfold isMultipleOfDword
+  rw [if_neg hd0]
   by_cases hw : d < 2 ^ W
   · rw [if_pos hw]
     cases a with
     | small x =>
-      simp only [hd0, if_false, TRepr.value_small]
+      simp only [TRepr.value_small]
       exact congrArg Except.ok (decide_eq_decide.mpr Iff.rfl)
     | large ws =>
       have e := remByWord_spec W d ws ha.large_words ha.large_ne_nil hpos hw
-      simp only [hd0, if_false, e, bind, Except.bind, pure, Except.pure, TRepr.value_large]
+      simp only [e, bind, Except.bind, pure, Except.pure, TRepr.value_large]
       exact congrArg Except.ok (decide_eq_decide.mpr Iff.rfl)
   · rw [if_neg hw]
     cases a with
@@ -209,6 +209,12 @@ theorem is_multiple_of_const_exact (W : Nat) (hW : 1 ≤ W) (a : TRepr) (d : Nat
         (Nat.le_of_not_lt hw) hd
       simp only [e, bind, Except.bind, pure, Except.pure, TRepr.value_large]
       exact congrArg Except.ok (decide_eq_decide.mpr Iff.rfl)
+
+/-- `is_multiple_of_const(0)`: the documented divide-by-zero panic, for every dividend (canonical or not) -/
+theorem is_multiple_of_const_zero (W : Nat) (a : TRepr) :
+    isMultipleOfDword W a 0 = .error .divideByZero := by
+  unfold isMultipleOfDword
+  rw [if_pos rfl]
 
 -- ================================================================== §4 sign tables
 
